@@ -183,6 +183,9 @@ class ProductCache {
 };
 ProductCache& products();
 
+template <class C> auto size_of(const C& c) -> decltype(c.size()) { return c.size(); }
+inline long size_of(const Elem&) { return 1; }
+
 // returns false when the simulator fails this retrieval
 inline bool retrieval_allowed(const char* api, const char* type, const std::string& bank) {
   int idx = sim().n_retrievals++;
@@ -281,6 +284,7 @@ class EvtStore {
     if (!retrieval_allowed("retrieve", TypeName<T>::get(), bank)) return StatusCode::FAILURE;
     held_.push_back(std::static_pointer_cast<const void>(products().get<T>(bank)));
     out = static_cast<const T*>(held_.back().get());
+    std::fprintf(sim().out, "DELIVERED %s|%s size=%ld\n", TypeName<T>::get(), bank.c_str(), long(size_of(*out)));
     return StatusCode::SUCCESS;
   }
   // "is this object in the store?" - when the simulator is about to fail the next retrieval, the object is absent
@@ -389,6 +393,7 @@ class Event {
   template <class T> bool getByLabel(const InputTag& tag, Handle<T>& h) const {
     if (!simfw::retrieval_allowed("getByLabel", simfw::TypeName<T>::get(), tag.label())) return false;
     h.set(simfw::products().get<T>(tag.label()));
+    std::fprintf(simfw::sim().out, "DELIVERED %s|%s size=%ld\n", simfw::TypeName<T>::get(), tag.label().c_str(), long(h->size()));
     return true;
   }
   template <class T> bool getByToken(const EDGetTokenT<T>& t, Handle<T>& h) const {
@@ -397,6 +402,7 @@ class Event {
     std::string api = "getByToken#" + std::to_string(t.index) + "(" + ti.type + ")";
     if (!simfw::retrieval_allowed(api.c_str(), simfw::TypeName<T>::get(), ti.bank)) return false;
     h.set(simfw::products().get<T>(ti.bank));
+    std::fprintf(simfw::sim().out, "DELIVERED %s|%s size=%ld\n", simfw::TypeName<T>::get(), ti.bank.c_str(), long(h->size()));
     return true;
   }
 };
